@@ -21,8 +21,10 @@ from ..astutil import text, short, endswith, calls_in, walk_no_nested, names_loa
 from ..callgraph import CallGraph
 from .. import events as E
 from .. import types as T
-from ._h_A import (FactReach, branch_succ, loop_breaks, nodes_of_stmts, nodes_for, kwarg, is_const,
-                   stmts_in)
+from ..dataflow import DefUse
+from ._h_A import (FactReach, Facts, branch_succ, loop_breaks, nodes_of_stmts, nodes_for, kwarg,
+                   is_const, stmts_in, inliner, expander, bind_call, call_arg, real_loops, Owners,
+                   followed, returns_of, value_at, strip_wrappers)
 
 EXPLANATION = (
   "Effect analysis over the resolved call graph from the seven read-only entry points exported by "
@@ -37,7 +39,10 @@ EXPLANATION = (
   "the assumption 'engine at rest => recompute_map empty', checked as the shape of a successful "
   "apply_user_actions: _update_loop without ignore_other_changes only returns with an empty "
   "recompute_map, _bring_all_up_to_date runs it that way, and every possibly dirtying step of "
-  "apply_user_actions is followed by _bring_all_up_to_date. Not decided: the state after a "
+  "apply_user_actions is followed by _bring_all_up_to_date. R4: the revert the first cut relies "
+  "on replays exactly the undo actions recorded since the checkpoint (_undo_to_checkpoint slices "
+  "out_actions.undo from the checkpointed *undo* length to the end and hands all of it to "
+  "ApplyUndoActions). Not decided: the state after a "
   "FAILED bundle (rollback leaves dirty cells a read-only call may recompute), effects of code "
   "reached only through attribute access not listed as a seed, and effects inside user formulas "
   "(opaque; they run only behind the two cuts).")
@@ -77,6 +82,7 @@ def check(run, repo, tier):
   r1_effects(run, w, cg)
   r2_guard(run, w)
   r3_at_rest(run, w)
+  r4_revert_since_checkpoint(run, w)
 
 
 # ------------------------------------------------------------------------------------------
@@ -237,10 +243,14 @@ def r2_guard(run, w):
   R2 = run.rule("C29-R2", "Engine.get_formula_value: checkpoint before evaluation, undo to it in "
                 "finally on every exit, _sync_request restored; no unguarded read-only caller of "
                 "_recompute_one_cell", floor=5)
-  gv = w.fn(GUARDED)
+  inl = inliner(w)
+  own = Owners(w)
+  gv = inl.fn(GUARDED)
+  ex = expander(gv)
   cfg = gv.xcfg
   cps = [(n, n.stmt.targets[0].id) for n in cfg.nodes if n.kind == "stmt" and
-         isinstance(n.stmt, ast.Assign) and isinstance(n.stmt.targets[0], ast.Name) and
+         isinstance(n.stmt, ast.Assign) and len(n.stmt.targets) == 1 and
+         isinstance(n.stmt.targets[0], ast.Name) and
          isinstance(n.stmt.value, ast.Call) and
          endswith(gv.name(n.stmt.value), "self._get_undo_checkpoint")]
   ev = gv.nodes_calling(lambda c, nm, f: endswith(nm, "self._recompute_one_cell"), cfg)
@@ -248,24 +258,28 @@ def r2_guard(run, w):
     raise AnalysisError("get_formula_value: checkpoint or evaluation not found")
   cpn, cpv = cps[0]
   exits = {cfg.exit.id, cfg.raise_exit.id}
-  run.ob(R2, gv.qualname, "%s = self._get_undo_checkpoint() before _recompute_one_cell" % cpv,
+  run.ob(R2, gv.qualname, "<cp> = self._get_undo_checkpoint() before _recompute_one_cell",
          "the checkpoint describes the action log before the formula ran",
          all(cfg.dominated_by(e, {cpn.id}) for e in ev) and
          not (cfg.reach_after(ev) & {cpn.id}), fi=gv.fi, node=cpn.stmt)
-  undo = gv.nodes_calling(lambda c, nm, f: endswith(nm, "self._undo_to_checkpoint") and
-                          len(c.args) == 1 and isinstance(c.args[0], ast.Name) and
-                          c.args[0].id == cpv, cfg)
+  utf = w.repo.func("engine.Engine._undo_to_checkpoint")
+  def undoes(c, nm, f):
+    if not endswith(nm, "self._undo_to_checkpoint"):
+      return False
+    a = call_arg(c, utf, utf.params()[1])
+    return a is not None and ex.norm(a) == ex.norm(ast.Name(id=cpv, ctx=ast.Load()))
+  undo = gv.nodes_calling(undoes, cfg)
   for e in sorted(ev):
     ok = bool(undo) and cfg.postdominated_by(e, undo, exits=exits)
     wit = None if ok else cfg.describe_path(cfg.path(e, exits, removed=undo, after=True))
-    run.ob(R2, gv.qualname, "_recompute_one_cell(...) -> finally: self._undo_to_checkpoint(%s)" % cpv,
+    run.ob(R2, gv.qualname, "_recompute_one_cell(...) -> finally: self._undo_to_checkpoint(<cp>)",
            "doc actions produced by the formula (lookupOrAddDerived and the like) are reverted "
            "whether evaluation returns or raises", ok, witness=wit, fi=gv.fi,
            node=cfg.nodes[e].stmt)
   sets = [n for n in cfg.nodes if n.kind == "stmt" and isinstance(n.stmt, ast.Assign) and
-          text(n.stmt.targets[0]) == "self._sync_request"]
-  ons = {n.id for n in sets if not is_const(n.stmt.value, False)}
-  offs = {n.id for n in sets if is_const(n.stmt.value, False)}
+          any(text(t) == "self._sync_request" for t in n.stmt.targets)]
+  ons = {n.id for n in sets if not is_const(ex.expand(n.stmt.value), False)}
+  offs = {n.id for n in sets if is_const(ex.expand(n.stmt.value), False)}
   for o in sorted(ons):
     ok = bool(offs) and cfg.postdominated_by(o, offs, exits=exits)
     run.ob(R2, gv.qualname, "self._sync_request = True ... finally: self._sync_request = False",
@@ -281,11 +295,15 @@ def r2_guard(run, w):
   for fi in w.repo.all_functions():
     for c in calls_in(fi.node.body):
       if isinstance(c.func, ast.Attribute) and c.func.attr == "_recompute_one_cell":
-        run.ob(R2, fi.qualname, short(c, 80), "a single cell is evaluated only by the "
-               "recalculation step or under the read-only guard", fi.qualname in owners, fi=fi,
+        os_ = own.of(fi, set(owners))
+        ok = os_ <= set(owners)
+        if ok:
+          followed(inl, fi, os_)
+        run.ob(R2, fi.qualname, "call of _recompute_one_cell", "a single cell is evaluated only by "
+               "the recalculation step or under the read-only guard", ok, fi=fi,
                node=c, nontrivial=False)
   # the rollback is effective only inside a bundle's action group; outside, out_actions is the
-  # group of the last bundle -- still a valid target for the checkpoint arithmetic (C01-R5).
+  # group of the last bundle -- still a valid target for the checkpoint arithmetic (C01-R5, R4).
 
 
 # ------------------------------------------------------------------------------------------
@@ -297,52 +315,58 @@ def r3_at_rest(run, w):
   run.assume("engine at rest (after a successful bundle or load) => recompute_map is empty; "
              "removal of unused lookup helpers after the loop dirties nothing (they have no "
              "dependents: remove_node_if_unused)")
+  inl = inliner(w)
   # (a) _update_loop
-  ul = w.fn("engine.Engine._update_loop")
+  ul = inl.fn("engine.Engine._update_loop")
+  uex = expander(ul)
   cfg = ul.cfg
   if "ignore_other_changes" not in ul.fi.params():
     raise AnalysisError("_update_loop: parameter ignore_other_changes vanished")
-  outer = [s for s in ul.node.body if isinstance(s, ast.While)]
+  whiles = real_loops(ul.node.body, ast.While)
+  outer = [s for s in whiles
+           if not any(s is not o and any(s is x for x in ast.walk(o)) for o in whiles)]
   if len(outer) != 1:
     raise AnalysisError("_update_loop: outer while loop not found")
   wl = outer[0]
-  ok_test = text(wl.test) == "self.recompute_map" and not wl.orelse
-  run.ob(R3, ul.qualname, "while %s:" % short(wl.test), "the loop runs as long as any cell is dirty",
+  ok_test = uex.norm(wl.test) == "self.recompute_map" and not wl.orelse
+  run.ob(R3, ul.qualname, "while self.recompute_map:", "the loop runs as long as any cell is dirty",
          ok_test, fi=ul.fi, node=wl, nontrivial=False)
-  fr = FactReach(cfg, {"ignore_other_changes"})
+  fr = Facts(cfg, {"ignore_other_changes"}, ex=uex)
   seen = fr.run([(cfg.entry.id, {"ignore_other_changes": False})])
   brk_nodes = set()
   for b in loop_breaks(wl):
     brk_nodes |= nodes_for(cfg, b)
   rets = {n.id for n in cfg.nodes if n.kind == "return"}
   hit = sorted((brk_nodes | rets) & set(seen))
-  ok = ok_test and not hit and cfg.exit.id in seen
+  wn = nodes_for(cfg, wl)
+  ok = ok_test and not hit and cfg.exit.id in seen and cfg.dominated_by(cfg.exit.id, wn)
   run.ob(R3, ul.qualname, "no break / return leaves the loop unless ignore_other_changes",
          "an unrestricted update loop returns normally only when recompute_map is empty", ok,
          fi=ul.fi, node=cfg.nodes[hit[0]].stmt if hit else wl,
          witness=None if ok else "line %d leaves the loop with dirty cells left"
          % (cfg.nodes[hit[0]].lineno if hit else wl.lineno))
   # nothing after the loop dirties cells
-  wn = nodes_for(cfg, wl)
   after = cfg.reach_after(wn) - nodes_of_stmts(cfg, wl.body) - wn
   calls_after = [c for n in after for c in calls_in(cfg.nodes[n].exprs)]
   run.ob(R3, ul.qualname, "no call after the loop", "nothing runs between the loop's exit test "
          "and the return", not calls_after, fi=ul.fi, nontrivial=False)
   # (b) _bring_all_up_to_date runs it unrestricted
-  ba = w.fn("engine.Engine._bring_all_up_to_date")
+  ba = inl.fn("engine.Engine._bring_all_up_to_date")
+  bex = expander(ba)
   bcfg = ba.cfg
   loops = [(n, c) for (n, c, nm) in ba.calls() if nm == "self._update_loop"]
   if not loops:
     raise AnalysisError("_bring_all_up_to_date: _update_loop call not found")
   for (n, c) in loops:
-    a = kwarg(c, "ignore_other_changes", 1)
-    run.ob(R3, ba.qualname, short(c), "the full recalculation does not stop at the requested "
-           "work items", a is None or is_const(a, False), fi=ba.fi, node=c)
+    a = call_arg(c, ul.fi, "ignore_other_changes")
+    run.ob(R3, ba.qualname, "self._update_loop(<all dirty nodes>)", "the full recalculation does "
+           "not stop at the requested work items",
+           a is not None and is_const(bex.expand(a), False), fi=ba.fi, node=c)
   ok = bcfg.postdominated_by(bcfg.entry.id, {n.id for (n, c) in loops})
   run.ob(R3, ba.qualname, "every normal path runs the update loop", "a full recalculation always "
          "recalculates", ok, fi=ba.fi)
   # (c) apply_user_actions: dirtying steps are followed by a full recalculation
-  au = w.fn("engine.Engine.apply_user_actions")
+  au = inl.fn("engine.Engine.apply_user_actions")
   acfg = au.cfg
   recalc = au.nodes_calling(lambda c, nm, f: nm == "self._bring_all_up_to_date")
   if not recalc:
@@ -368,14 +392,95 @@ def r3_at_rest(run, w):
       wit = acfg.describe_path(acfg.path(n.id, {acfg.exit.id}, removed=recalc, after=True))
     run.ob(R3, au.qualname, what, why, ok, witness=wit, fi=au.fi, node=n.stmt)
   # the loop test's contract: falsy means nothing was removed
-  ar = w.fn("docmodel.DocModel.apply_auto_removes")
-  rets = stmts_in(ar.node.body, ast.Return)
-  rem = [c for c in calls_in(ar.node.body) if ar.name(c) == "self.remove" and len(c.args) == 1]
-  ok = len(rets) == 1 and len(rem) == 1 and isinstance(rets[0].value, ast.Call) and \
-      dotted(rets[0].value.func) == "bool" and \
-      [text(a) for a in rets[0].value.args] == [text(rem[0].args[0])]
-  run.ob(R3, ar.qualname, short(rets[0]) if rets else "return ?", "apply_auto_removes reports "
-         "work exactly when it removed something", ok, fi=ar.fi)
+  ar = inl.fn("docmodel.DocModel.apply_auto_removes")
+  aex = expander(ar)
+  rmf = w.repo.func("docmodel.DocModel.remove")
+  rem = [c for c in calls_in(ar.node.body) if ar.name(c) == "self.remove"]
+  rets = [(r, v) for (n, r, v) in returns_of(ar)]
+  if not rets or len(rem) != 1:
+    raise AnalysisError("apply_auto_removes: its removal call / return value cannot be followed")
+  removed = call_arg(rem[0], rmf, rmf.params()[1])
+  rtxt = aex.norm(removed) if removed is not None else None
+  for (r, v) in rets:
+    x = v
+    if isinstance(x, ast.Call) and dotted(x.func) == "bool" and len(x.args) == 1:
+      x = x.args[0]
+    elif isinstance(x, ast.Compare) and len(x.ops) == 1 and isinstance(x.ops[0], (ast.Gt, ast.NotEq)) \
+        and is_const(x.comparators[0], 0) and isinstance(x.left, ast.Call) and \
+        dotted(x.left.func) == "len" and len(x.left.args) == 1:
+      x = x.left.args[0]
+    ok = x is not None and rtxt is not None and text(x) == rtxt
+    run.ob(R3, ar.qualname, "return bool(<the records removed>)", "apply_auto_removes reports "
+           "work exactly when it removed something", ok, fi=ar.fi, node=r)
+
+
+# ------------------------------------------------------------------------------------------
+def r4_revert_since_checkpoint(run, w):
+  R4 = run.rule("C29-R4", "_undo_to_checkpoint replays exactly the undo actions recorded since the "
+                "checkpoint: the slice of out_actions.undo starting at the checkpointed undo length, "
+                "to its end, all of it, through ApplyUndoActions", floor=3)
+  inl = inliner(w)
+  gc = inl.fn("engine.Engine._get_undo_checkpoint")
+  gex = expander(gc)
+  rets = [(r, v) for (n, r, v) in returns_of(gc) if v is not None]
+  if len(rets) != 1 or not isinstance(rets[0][1], ast.Tuple):
+    raise AnalysisError("_get_undo_checkpoint no longer returns one tuple")
+  comps = []
+  for e in rets[0][1].elts:
+    if isinstance(e, ast.Call) and dotted(e.func) == "len" and len(e.args) == 1 and \
+        isinstance(e.args[0], ast.Attribute) and endswith(dotted(e.args[0].value), "out_actions"):
+      comps.append(e.args[0].attr)
+    else:
+      comps.append(None)
+  run.ob(R4, gc.qualname, "return (..., len(self.out_actions.undo), ...)", "the checkpoint "
+         "remembers how many undo actions the log held", comps.count("undo") == 1, fi=gc.fi,
+         node=rets[0][0], nontrivial=False)
+  if comps.count("undo") != 1:
+    return
+  k = comps.index("undo")
+  ut = inl.fn("engine.Engine._undo_to_checkpoint")
+  uex = expander(ut)
+  cfg = ut.cfg
+  du = DefUse(ut, cfg)
+  cp = ut.fi.params()[1]
+  auf = w.repo.func("useractions.UserActions.ApplyUndoActions")
+  applies = [(n, c) for (n, c, nm) in ut.calls() if endswith(nm, "ApplyUndoActions")]
+  if not applies:
+    raise AnalysisError("_undo_to_checkpoint: ApplyUndoActions call not found")
+  for (n, c) in applies:
+    a = call_arg(c, auf, auf.params()[1])
+    v = value_at(ut, cfg, du, n.id, a) if a is not None else None
+    # [get_action_repr(x) for x in <slice>] / map(get_action_repr, <slice>) / list(...)
+    src, ok_elems = None, False
+    v2 = strip_wrappers(v, names=("list", "tuple")) if v is not None else None
+    if isinstance(v2, (ast.ListComp, ast.GeneratorExp)) and len(v2.generators) == 1:
+      g = v2.generators[0]
+      ok_elems = not g.ifs and isinstance(g.target, ast.Name) and isinstance(v2.elt, ast.Call) and \
+          endswith(dotted(v2.elt.func), "get_action_repr") and \
+          len(v2.elt.args) + len(v2.elt.keywords) == 1 and \
+          text((v2.elt.args + [kk.value for kk in v2.elt.keywords])[0]) == g.target.id
+      src = g.iter
+    elif isinstance(v2, ast.Call) and dotted(v2.func) == "map" and len(v2.args) == 2 and \
+        endswith(dotted(v2.args[0]), "get_action_repr"):
+      ok_elems = True
+      src = v2.args[1]
+    if src is None:
+      raise AnalysisError("_undo_to_checkpoint: cannot follow what is handed to ApplyUndoActions "
+                          "(`%s`)" % short(v))
+    src = strip_wrappers(src, names=("list", "tuple"))
+    run.ob(R4, ut.qualname, "ApplyUndoActions([get_action_repr(a) for a in <undo slice>])",
+           "every undo action of the slice is replayed (no filter), in its serialised form",
+           ok_elems, fi=ut.fi, node=c)
+    ok = isinstance(src, ast.Subscript) and isinstance(src.slice, ast.Slice) and \
+        endswith(dotted(src.value), "out_actions.undo") and src.slice.upper is None and \
+        src.slice.step is None and src.slice.lower is not None and \
+        text(src.slice.lower) == "%s[%d]" % (cp, k)
+    run.ob(R4, ut.qualname, "self.out_actions.undo[<checkpointed undo length>:]",
+           "the actions reverted are those recorded after the checkpoint was taken -- counted in "
+           "the undo list itself, whose length differs from the stored list's whenever calc "
+           "actions or removals are in the log", ok, fi=ut.fi, node=c,
+           witness=None if ok else "the slice replayed is `%s`; component %d of the checkpoint is "
+           "the undo length" % (short(src), k))
 
 
 # Calls in apply_user_actions that cannot mark cells dirty (one reason each).
@@ -474,6 +579,12 @@ VARIANTS = [
       self._undo_to_checkpoint(checkpoint)""",
    """      # processed (e.g. don't get applied to DocStorage), so it's important to reverse them.
       self._undo_to_checkpoint(checkpoint)""", "C29-R2"),
+  ("revert-from-stored-length", EN,
+   "      undo_actions = self.out_actions.undo[len_undo:]",
+   "      undo_actions = self.out_actions.undo[len_stored:]", "C29-R4"),
+  ("revert-skips-last-undo", EN,
+   "      undo_actions = self.out_actions.undo[len_undo:]",
+   "      undo_actions = self.out_actions.undo[len_undo:-1]", "C29-R4"),
   ("update-loop-gives-up", EN,
    """      if self.recompute_map and self._recompute_done_counter == 0:
         raise Exception('data engine not making progress updating formulas')""",
